@@ -133,6 +133,13 @@ def gen_prices(rng, n_dates, tickers, faults=None, lo=2.0, hi=400.0):
             for _ in range(rng.randint(1, 2)):
                 rows[rng.randrange(n_dates)][j] = None
             fired["nan_tick"] = fired.get("nan_tick", 0) + 1
+        if n_dates >= 3 and rng.random() < faults.get("zero_run", 0):
+            # quoted at exactly zero for a stretch (a par swap, a worthless right): a held position is then worth 0
+            a = rng.randrange(0, n_dates - 1)
+            b = min(n_dates, a + rng.randint(2, 4))
+            for i in range(a, b):
+                rows[i][j] = 0.0
+            fired["zero_run"] = fired.get("zero_run", 0) + 1
         if rng.random() < faults.get("zero_tick", 0):
             rows[rng.randrange(n_dates)][j] = 0.0
             fired["zero_tick"] = fired.get("zero_tick", 0) + 1
